@@ -46,6 +46,24 @@ class Lib:
         self._shipped = {}
         self._cache_groups = {}
         self._cache_params = {}
+        self._subclasses = {}
+        self.optimized = False
+
+    def klass(self, cls, subclass=False):
+        """the class applications use: the stock one, or a trivial application subclass whose
+        finish() post-processes the key (restoring must give back the same class)"""
+        if not subclass:
+            return self.classes[cls]
+        if cls not in self._subclasses:
+            import hashlib as _h
+            base = self.classes[cls]
+
+            class AppSession(base):
+                def finish(self, msg):
+                    return _h.sha256(b"app-session|" + base.finish(self, msg)).digest()
+            AppSession.__name__ = "App" + base.__name__
+            self._subclasses[cls] = AppSession
+        return self._subclasses[cls]
 
     def activate(self):
         return _Activation(self)
@@ -54,7 +72,7 @@ class Lib:
         """the module-level parameter set singleton of this copy (imported on first use)"""
         if kind not in self._shipped:
             modname, attr = self._SHIPPED_MOD[kind]
-            with self.activate():
+            with self.activate(), _CompileAsDashO(self.optimized):
                 import importlib
                 mod = importlib.import_module(modname)
             self._shipped[kind] = getattr(mod, attr)
@@ -107,8 +125,39 @@ def repo_root():
     return os.environ.get("VERIF_REPO", "/repo")
 
 
-def _import_copy(src, trip, eager):
+class _CompileAsDashO:
+    """while active, source files are compiled the way `python -O` compiles them (assert
+    statements stripped).  No cached bytecode is ever read (sys.pycache_prefix points to an
+    empty place), so patching the loader's compile step is enough."""
+
+    def __init__(self, on):
+        self.on = on
+
+    def __enter__(self):
+        if self.on:
+            import importlib._bootstrap_external as _be
+            self._be = _be
+            self.orig = orig = _be.SourceLoader.source_to_code
+
+            def source_to_code(self_, data, path, *, _optimize=-1):
+                return orig(self_, data, path, _optimize=1)
+            _be.SourceLoader.source_to_code = source_to_code
+
+    def __exit__(self, *a):
+        if self.on:
+            self._be.SourceLoader.source_to_code = self.orig
+        return False
+
+
+def _import_copy(src, trip, eager, optimize=False):
+    with _CompileAsDashO(optimize):
+        lib = _import_copy_plain(src, trip, eager, optimize)
+    return lib
+
+
+def _import_copy_plain(src, trip, eager, optimize=False):
     lib = Lib()
+    lib.optimized = optimize
     empty = Lib()
     # the library sees a proxy `threading` module: locks it creates cooperate with the simulated
     # thread scheduler instead of blocking the one runnable thread
@@ -151,6 +200,8 @@ def load():
     if _STATE["lib"] is not None:
         return _STATE["lib"]
     sys.dont_write_bytecode = True
+    # never read cached bytecode of the tree under test (nor write any)
+    sys.pycache_prefix = os.path.join("/tmp", "simspake-no-pycache-%d" % os.getpid())
     src = os.path.join(repo_root(), "src")
     if not os.path.isdir(os.path.join(src, "spake2")):
         raise RuntimeError("no spake2 package under %s" % src)
@@ -168,12 +219,12 @@ def load():
     return lib
 
 
-def load_fresh():
+def load_fresh(optimize=False):
     """a brand-new copy of the package: the module state of a process that has just started
     (nothing cached, nothing memoised).  Parameter sets beyond the default are imported on
-    first use, as an application would."""
+    first use, as an application would.  optimize=True: as under `python -O`."""
     base = load()
-    return _import_copy(base.src, base.trip, eager=False)
+    return _import_copy(base.src, base.trip, eager=False, optimize=optimize)
 
 
 def exec_module_copy(lib, relpath, modname, package="spake2"):
